@@ -198,6 +198,24 @@ func (s *Sink) Close() (retErr error) {
 		return os.RemoveAll(s.snapTmpDirPath)
 	}
 
+	if s.localWALDir != "" && s.stc != nil {
+		// A full snapshot may have become required after the header was
+		// accepted (e.g. a load was applied while this snapshot was being
+		// persisted). The incremental must not be installed then, and above
+		// all it must not clear the requirement. Nothing has been moved yet,
+		// so the WAL chain is intact and this is an ordinary, retryable
+		// failure rather than a fatal one.
+		dueNext, err := s.stc.DueNext()
+		if err != nil {
+			return err
+		}
+		if dueNext == Full {
+			stats.Add(sinkErrors, 1)
+			os.RemoveAll(s.snapTmpDirPath)
+			return fmt.Errorf("full snapshot needed before incremental can be applied")
+		}
+	}
+
 	defer func() {
 		if retErr != nil {
 			stats.Add(sinkErrors, 1)
@@ -242,7 +260,10 @@ func (s *Sink) Close() (retErr error) {
 		return fmt.Errorf("failed to rename snapshot directory: %v", err)
 	}
 
-	if s.stc != nil {
+	// Only a full snapshot satisfies a "full snapshot needed" requirement. An
+	// incremental can only get here when no such requirement existed, so it has
+	// nothing to clear -- and must not clear one raised while it was closing.
+	if s.stc != nil && s.localWALDir == "" {
 		if err := s.stc.SetDueNext(Incremental); err != nil {
 			return fmt.Errorf("failed to set due next to incremental: %v", err)
 		}
